@@ -111,10 +111,32 @@ impl Http1Parser {
     pub fn with_config(config: Http1Config) -> Self {
         Self { config }
     }
+    /// Returns the message head: the bytes up to and including the blank line that ends the
+    /// headers. The body is never part of what gets decoded. Without a blank line all data is
+    /// (an incomplete) head.
+    fn head_of(data: &[u8]) -> &[u8] {
+        let crlf_end = data
+            .windows(4)
+            .position(|w| w == b"\r\n\r\n")
+            .map(|pos| pos.saturating_add(4));
+        let lf_end = data
+            .windows(2)
+            .position(|w| w == b"\n\n")
+            .map(|pos| pos.saturating_add(2));
+        let end = match (crlf_end, lf_end) {
+            (Some(a), Some(b)) => a.min(b),
+            (Some(a), None) => a,
+            (None, Some(b)) => b,
+            (None, None) => data.len(),
+        };
+        data.get(..end).unwrap_or(data)
+    }
+
     pub fn parse_request(&self, data: &[u8]) -> Result<Option<Http1Request>, Http1ParseError> {
         let start_time = Instant::now();
 
-        let data_str = std::str::from_utf8(data).map_err(|_| Http1ParseError::InvalidUtf8)?;
+        let data_str =
+            std::str::from_utf8(Self::head_of(data)).map_err(|_| Http1ParseError::InvalidUtf8)?;
 
         if !data_str.contains("\r\n\r\n") && !data_str.contains("\n\n") {
             return Ok(None);
@@ -206,7 +228,8 @@ impl Http1Parser {
     pub fn parse_response(&self, data: &[u8]) -> Result<Option<Http1Response>, Http1ParseError> {
         let start_time = Instant::now();
 
-        let data_str = std::str::from_utf8(data).map_err(|_| Http1ParseError::InvalidUtf8)?;
+        let data_str =
+            std::str::from_utf8(Self::head_of(data)).map_err(|_| Http1ParseError::InvalidUtf8)?;
 
         if !data_str.contains("\r\n\r\n") && !data_str.contains("\n\n") {
             return Ok(None);
